@@ -11,19 +11,23 @@ import props  # noqa: E402
 NOT_APPLICABLE = {
     'C02': 'routing of calls/replies lives in broker.rs handlers, which neither verifier can ingest (Verus rejects '
            'ref patterns, pattern closures, for-loops over impl Iterator, break-with-value; Kani cannot hold a '
-           'ConnectionId = Arc<Mutex>); no function contract within reach states "exactly one reply". Leaf facts '
-           '(ConnectionState::add_call / remove_call) are proved inside the C04 unit and reported there.',
-    'C03': 'registry uniqueness/ownership/cascades are implemented inline in broker.rs handlers over four maps; '
-           'handler text is outside the accepted subset of both verifiers (see DESIGN 1.1/1.2).',
+           'ConnectionId = Arc<Mutex>); no function contract within reach states "exactly one reply".',
+    'C03': 'registry handlers (create_service, destroy_object, remove_object, remove_service) use ref patterns / for-loops '
+           'over impl Iterator (outside Verus\'s subset); create_object relies on UUID freshness, which no contract can state; '
+           'a unit holding destroy_service alone would decide no clause. Object (unit broker_object) is proved under C02.',
     'C06': 'quantifies over schedules of async tasks; Kani has no scheduler/thread model, Verus would need '
            'permission-typed futures; no per-function contract expresses absence of lost wake-ups.',
     'C14': 'Packetizer::next_message is split_to + truncate + reserve on a BytesMut (the operations whose CBMC cost made '
            'every probe time out, see DESIGN 1.2/1.4) and the transports are Pin-projected poll functions over async I/O '
            'objects; no harness shape completed, and Verus cannot import bytes/tokio. No bounded stand-in is claimed.',
-    'C09': 'teardown and statistics counters are handler-layer code; "no residual state" is a whole-broker '
-           'invariant over broker.rs. Leaf facts (State queues) are proved inside the C04 unit only.',
-    'C11': 'panic-freedom of ~40 expect("inconsistent state") sites is a corollary of a whole-broker invariant '
-           'over the handler layer; only channel.rs (3 unreachable!, 2 debug_assert!) is proved, under C05.',
+    'C09': 'teardown (shutdown_connection, remove_* helpers: for-loops over impl Iterator) and the statistics counters '
+           '(cfg(feature) code, dropped by the extraction) are outside Verus\'s subset; "no residual state" is a whole-broker '
+           'invariant. Leaf facts proved elsewhere: State queues are LIFO (unit broker_state, under C02), live connection ids '
+           'are pairwise distinct (unit broker_conn_id, under C05).',
+    'C11': 'panic-freedom of ~40 expect("inconsistent state") sites is a corollary of a whole-broker invariant over the '
+           'handler layer, most of which is outside Verus\'s subset. Proved elsewhere, for the verified handlers only: all '
+           'unreachable!/debug_assert! of channel.rs and the calls into them (C05), the expect() sites of '
+           'call_function_reply / abort_call (C02), the bus-listener handlers (C10).',
     'C15': 'fault points x async schedules; pending futures resolve by dropping oneshot/mpsc ends; no '
            'function-level contract.',
     'C16': 'quantifies over schemas and over programs produced by the code generator and derive macros, with '
